@@ -84,3 +84,37 @@ func EvalFilter(f *LabelFilter, labels map[string]string, fl *Flags) (bool, erro
 	}
 	return fn(labels, fl), nil
 }
+
+// ParenFilterString prints a filter tree with extra parentheses that do not change its
+// reading (qryn's grammar: Head = "(" LabelFilter ")" | simple term). style is a bit set:
+// 1 = wrap the whole filter, 2 = wrap every leaf, 4 = wrap leaves that are right operands.
+// Inner children are parenthesised as in LabelFilter.String.
+func ParenFilterString(f *LabelFilter, style int) string {
+	var rec func(f *LabelFilter, right bool) string
+	rec = func(f *LabelFilter, right bool) string {
+		if f.Bool == "" {
+			s := f.String()
+			if style&2 != 0 || (right && style&4 != 0) {
+				return "(" + s + ")"
+			}
+			return s
+		}
+		l := rec(f.L, false)
+		if f.L.Bool != "" {
+			l = "(" + l + ")"
+		}
+		r := rec(f.R, true)
+		if f.R.Bool != "" {
+			r = "(" + r + ")"
+		}
+		return l + " " + f.Bool + " " + r
+	}
+	if f == nil {
+		return ""
+	}
+	s := rec(f, false)
+	if style&1 != 0 {
+		s = "(" + s + ")"
+	}
+	return s
+}
